@@ -348,3 +348,71 @@ Proof.
     mstep. replace (bits_ok s false _) with true by (symmetry; bits; reflexivity). cbn [andb].
     apply checked_mon.
 Qed.
+
+(* ---- (5) the verifier is really asked, in every step of every history ---- *)
+Lemma verify_called cap s : In EVerify (fst (run_verify cap s)).
+Proof. unfold run_verify. apply in_pre. left. left. reflexivity. Qed.
+
+Lemma prov_final_verify cap s : In Fin (fst (run_prov cap s)) -> In EVerify (fst (run_prov cap s)).
+Proof.
+  unfold run_prov. destruct (s_has_prov s); [|intros _; apply verify_called].
+  intros H. apply in_pre in H. destruct H as [H|H]; [inl H|]. apply in_pre. right.
+  destruct (s_prov_ok s); [apply verify_called|exfalso; exact (fail_no_final H)].
+Qed.
+
+Lemma gate_final_verify cap s :
+  s_allow_unsigned s = false -> In Fin (fst (run_gate cap s)) -> In EVerify (fst (run_gate cap s)).
+Proof.
+  intros A. unfold run_gate. rewrite A.
+  destruct (s_has_sig s); [|apply prov_final_verify].
+  intros H. apply in_pre in H. destruct H as [H|H]; [inl H|]. apply in_pre. right.
+  destruct (s_sig_ok s); [apply prov_final_verify; exact H|exfalso; exact (fail_no_final H)].
+Qed.
+
+Lemma checked_final_verify cap s :
+  s_allow_unsigned s = false -> In Fin (fst (run_checked cap s)) -> In EVerify (fst (run_checked cap s)).
+Proof.
+  intros A. unfold run_checked. destruct (s_digest_ok s); cbn [negb];
+    [|intros H; exfalso; exact (fail_no_final H)].
+  destruct (s_cache_hit s); [apply gate_final_verify; exact A|].
+  intros H. apply in_pre in H. destruct H as [H|H]; [inl H|]. apply in_pre. right.
+  apply gate_final_verify; assumption.
+Qed.
+
+(* whether or not the bytes came from the cache: without an unsigned-install request the final
+   artifact is only written in a run in which the verifier was called *)
+Theorem final_implies_verifier_called : forall cap s,
+  s_allow_unsigned s = false -> In (EWrite LFinal) (fst (run cap s)) -> In EVerify (fst (run cap s)).
+Proof.
+  intros cap s A H. unfold run, run_stage in *.
+  apply in_pre in H. destruct H as [H|H]; [inl H|]. apply in_pre. right.
+  destruct (s_resolve s); cbn [negb] in *; [|inl H].
+  apply in_pre in H. destruct H as [H|H]; [inl H|]. apply in_pre. right.
+  destruct (s_installed s); [inl H|].
+  apply in_pre in H. destruct H as [H|H]; [inl H|]. apply in_pre. right.
+  destruct (s_cache_hit s).
+  - apply in_pre in H. destruct H as [H|H]; [inl H|]. apply in_pre. right.
+    apply checked_final_verify; assumption.
+  - apply in_pre in H. destruct H as [H|H]; [inl H|]. apply in_pre. right.
+    destruct (s_download_ok s); [|exfalso; exact (fail_no_final H)].
+    apply in_pre in H. destruct H as [H|H]; [inl H|]. apply in_pre. right.
+    apply checked_final_verify; assumption.
+Qed.
+
+(* For every history of installs on one install directory sharing its cache, every step: the
+   final artifact is written in that step only if the digest matched and the gate of THAT step
+   passed - the verifier configured for that step was called in that step and accepted, or an
+   unsigned install was requested and allowed.  A cache hit never stands in for the gate. *)
+Theorem history_only_after_gates : forall cap ss c,
+  Forall (fun so =>
+            In (EWrite LFinal) (fst (snd so)) ->
+            s_digest_ok (fst so) = true /\ gate_ok (fst so) = true
+            /\ (s_allow_unsigned (fst so) = true \/ In EVerify (fst (snd so))))
+         (hist_run cap c ss).
+Proof.
+  intros cap ss. induction ss as [|s r IH]; intros c; cbn [hist_run]; constructor; [|apply IH].
+  cbn [fst snd]. intros H. destruct (install_only_after_gates cap _ H) as [D G].
+  split; [exact D|]. split; [exact G|].
+  destruct (s_allow_unsigned (with_cache s c)) eqn:A; [left; reflexivity|right].
+  apply final_implies_verifier_called; assumption.
+Qed.
